@@ -294,6 +294,7 @@ func check(prop string, spec propSpec, tier string, seed int64, scratch string) 
 	type job struct {
 		profile string
 		idx     int
+		n       int
 	}
 	var jobs []job
 	for _, ps := range spec.Profiles {
@@ -302,7 +303,7 @@ func check(prop string, spec propSpec, tier string, seed int64, scratch string) 
 			n = 1
 		}
 		for i := 0; i < n; i++ {
-			jobs = append(jobs, job{ps.Profile, i})
+			jobs = append(jobs, job{ps.Profile, i, n})
 		}
 	}
 	outs := make([]*workerOut, len(jobs))
@@ -317,7 +318,7 @@ func check(prop string, spec propSpec, tier string, seed int64, scratch string) 
 			sem <- struct{}{}
 			defer func() { <-sem }()
 			base := seed*1_000_000_007 + int64(i)*50_000_000
-			args := []string{"-profile", j.profile, "-prop", prop, "-seed", fmt.Sprint(base), "-runs", "100000000", "-budget", fmt.Sprintf("%.1fs", budget), "-tier", tier}
+			args := []string{"-profile", j.profile, "-prop", prop, "-seed", fmt.Sprint(base), "-runs", "100000000", "-budget", fmt.Sprintf("%.1fs", budget), "-tier", tier, "-widx", fmt.Sprint(j.idx), "-wn", fmt.Sprint(j.n)}
 			outs[i], logs[i], errs[i] = runWorker(scratch, args, filepath.Join(scratch, fmt.Sprintf("w%d.json", i)))
 		}(i, j)
 	}
